@@ -452,7 +452,8 @@ func TestC13SmallPool(t *testing.T) {
 			if sess.ID() != "user-id" {
 				t.Fatalf("C13 violated: id after redial = %q", sess.ID())
 			}
-			if got, ok := cli.GetSession("user-id"); !ok || got != sess {
+			// (the redial publishes the session in the index as its last step: wait for that)
+			if !vt.WaitUntil(func() bool { got, ok := cli.GetSession("user-id"); return ok && got == sess }) {
 				t.Fatalf("C13 violated: the index does not map the user id to the session after the redial")
 			}
 			select {
